@@ -629,3 +629,112 @@ def _hoist_remaining(src):
 
 V('STALE_stretchy_length_hoisted', ['C05', 'C06'], 'bits.py', fn=_hoist_remaining, expect=['STALE'])
 V('REP_bracket_at_least_one_copy', ['C05'], 'utils.py', "','.join([s[start + 1:p]] * factor)", "(factor - 1) * (s[start + 1:p] + ',') + s[start + 1:p]", ['REP'])
+
+
+# ------------------------------------------------------------------ package-wide behaviour-preserving transformations
+# (each confirmed to keep the project's 836 tests green when it was written; the checks must stay silent on all of them)
+import copy as _copy
+copy = _copy
+
+def swap_if_else(tree):
+    """if c: A else: B  ->  if not c: B else: A   (only plain if/else, not elif chains)"""
+    n = 0
+    class T(ast.NodeTransformer):
+        def visit_If(self, node):
+            nonlocal n
+            self.generic_visit(node)
+            if node.orelse and not (len(node.orelse) == 1 and isinstance(node.orelse[0], ast.If)):
+                # don't touch when body is an elif itself to keep chain readable
+                node.test = ast.UnaryOp(op=ast.Not(), operand=node.test)
+                node.body, node.orelse = node.orelse, node.body
+                n += 1
+            return node
+    t = T().visit(tree)
+    ast.fix_missing_locations(t)
+    return t, n
+
+def split_chained(tree):
+    """a <= b < c  ->  a <= b and b < c   when b is a plain Name/Constant (no double evaluation issue)"""
+    n = 0
+    class T(ast.NodeTransformer):
+        def visit_Compare(self, node):
+            nonlocal n
+            self.generic_visit(node)
+            if len(node.ops) == 2 and isinstance(node.comparators[0], (ast.Name, ast.Constant)):
+                n += 1
+                a = ast.Compare(left=node.left, ops=[node.ops[0]], comparators=[node.comparators[0]])
+                b = ast.Compare(left=copy.deepcopy(node.comparators[0]), ops=[node.ops[1]], comparators=[node.comparators[1]])
+                return ast.BoolOp(op=ast.And(), values=[a, b])
+            return node
+    t = T().visit(tree)
+    ast.fix_missing_locations(t)
+    return t, n
+
+def rename_locals(tree, suffix='_v'):
+    n = 0
+    for fn in [x for x in ast.walk(tree) if isinstance(x, (ast.FunctionDef, ast.AsyncFunctionDef))]:
+        # only outermost functions (methods or module functions)
+        pass
+    def outer_functions(node, inside=False):
+        for ch in ast.iter_child_nodes(node):
+            if isinstance(ch, (ast.FunctionDef, ast.AsyncFunctionDef)):
+                if not inside:
+                    yield ch
+                # do not descend
+            else:
+                yield from outer_functions(ch, inside)
+    for fn in outer_functions(tree):
+        params = {a.arg for a in fn.args.posonlyargs + fn.args.args + fn.args.kwonlyargs}
+        if fn.args.vararg: params.add(fn.args.vararg.arg)
+        if fn.args.kwarg: params.add(fn.args.kwarg.arg)
+        declared = set()
+        for x in ast.walk(fn):
+            if isinstance(x, (ast.Global, ast.Nonlocal)):
+                declared |= set(x.names)
+        # nested scopes' own params
+        nested_params = set()
+        for x in ast.walk(fn):
+            if x is not fn and isinstance(x, (ast.FunctionDef, ast.AsyncFunctionDef, ast.Lambda)):
+                a = x.args
+                nested_params |= {y.arg for y in a.posonlyargs + a.args + a.kwonlyargs}
+                if a.vararg: nested_params.add(a.vararg.arg)
+                if a.kwarg: nested_params.add(a.kwarg.arg)
+            if x is not fn and isinstance(x, (ast.FunctionDef, ast.AsyncFunctionDef, ast.ClassDef)):
+                nested_params.add(x.name)
+        stores = {x.id for x in ast.walk(fn) if isinstance(x, ast.Name) and isinstance(x.ctx, (ast.Store, ast.Del))}
+        # names bound by import / except-as / with-as inside function
+        for x in ast.walk(fn):
+            if isinstance(x, ast.ExceptHandler) and x.name:
+                declared.add(x.name)
+            if isinstance(x, (ast.Import, ast.ImportFrom)):
+                for al in x.names:
+                    declared.add((al.asname or al.name).split('.')[0])
+        cand = {s for s in stores if s not in params and s not in declared and s not in nested_params and not s.startswith('__') and s != '_'}
+        if not cand:
+            continue
+        for x in ast.walk(fn):
+            if isinstance(x, ast.Name) and x.id in cand:
+                x.id = x.id + suffix
+                n += 1
+    return tree, n
+
+
+
+def _pkg_transform(which):
+    fn = {'swap': swap_if_else, 'chain': split_chained, 'locals': rename_locals, 'unparse': lambda t: (t, 1)}[which]
+
+    def run(filename, src):
+        tree = ast.parse(src)
+        tree, n = fn(tree)
+        return ast.unparse(tree) + '\n' if n else None
+    return run
+
+
+S('PKG_S_unparse_roundtrip', ALL + ['C05'], '*', pkg_fn=_pkg_transform('unparse'))
+S('PKG_S_swap_if_else_branches', ALL + ['C05'], '*', pkg_fn=_pkg_transform('swap'))
+S('PKG_S_split_chained_comparisons', ALL + ['C05'], '*', pkg_fn=_pkg_transform('chain'))
+S('PKG_S_rename_all_locals', ALL + ['C05'], '*', pkg_fn=_pkg_transform('locals'))
+
+# ---- A11 for ConstBitStream
+V('A11_constbitstream_copy_returns_self', ['C06', 'C04', 'C01'], 'bitstream.py', "        # The data can be shared as it's immutable, but the bit position can't be.\n        return self.__copy__()",
+  "        return self", ['A11'])
